@@ -131,7 +131,7 @@ func main() {
 		if res.TimedOut {
 			o.timeout = true
 		} else if res.ExitCode != 0 || len(o.results) != len(batches[bi]) {
-			o.died = fmt.Sprintf("exit=%d err=%v output tail:\n%s", res.ExitCode, res.Err, tail(res.Output, 6000))
+			o.died = fmt.Sprintf("exit=%d err=%v crash excerpt:\n%s\noutput tail:\n%s", res.ExitCode, res.Err, res.Death, tail(res.Output, 3000))
 		}
 		if cur, err := os.ReadFile(filepath.Join(dir, "current.json")); err == nil {
 			o.running = string(cur)
@@ -162,7 +162,7 @@ func main() {
 				c.Count("histories_that_killed_the_process", 1)
 				c.Violation(class, msg, map[string]interface{}{"history": json.RawMessage(orNull(o.running)), "output": o.died})
 			} else {
-				c.Inconclusive("batch %d: child failed outside the anchored code: %s", bi, tail(msg, 1500))
+				c.Inconclusive("batch %d: child failed outside the anchored code: %s", bi, head(msg, 3000))
 			}
 		}
 	}
@@ -584,4 +584,11 @@ func runRepro() {
 		fmt.Printf("RESULT: %s\n  %s\n", v.Class, v.Message)
 	}
 	os.Exit(1)
+}
+
+func head(s string, n int) string {
+	if len(s) > n {
+		return s[:n]
+	}
+	return s
 }
